@@ -10,6 +10,10 @@ mod tantivy_drv;
 #[cfg(feature = "full")]
 mod train;
 #[cfg(feature = "full")]
+mod kytea_drv;
+#[cfg(feature = "full")]
+mod cli_util;
+#[cfg(feature = "full")]
 mod record;
 
 use std::fs::{File, OpenOptions};
@@ -25,10 +29,14 @@ fn run_case(case: &Value) -> Value {
     let kind = case["kind"].as_str().unwrap_or("history");
     match kind {
         "history" => ops::run_history(case),
+        "dictedit" => ops::run_dictedit(case),
+        "pipeline" => ops::run_pipeline(case),
         #[cfg(feature = "full")]
         "tantivy" => tantivy_drv::run_case(case),
         #[cfg(feature = "full")]
         "train" => train::run_case(case),
+        #[cfg(feature = "full")]
+        "kytea" => kytea_drv::run_case(case),
         _ => json!({"id": case["id"], "error": format!("unknown kind {kind}")}),
     }
 }
@@ -83,6 +91,12 @@ fn main() {
         "replay" => replay(&args[2..]),
         #[cfg(feature = "full")]
         "files" => files::run(&args[2..]),
+        #[cfg(feature = "full")]
+        "mkmodel" => cli_util::mkmodel(&args[2..]),
+        #[cfg(feature = "full")]
+        "unzstd" => cli_util::unzstd(&args[2..]),
+        #[cfg(feature = "full")]
+        "decode" => cli_util::decode(&args[2..]),
         #[cfg(feature = "full")]
         "record" => {
             let kind = args[2].as_str();
